@@ -283,8 +283,9 @@ bool SemanticCheck(ParserState* state, RawNode root) {
       state->OnError(ParseEID::syntax, node->token.pos.start);
       return false;
     }
-    // Note: children of a syntax tree node are counted and addressed by Index
-    if (size(node->children) > static_cast<size_t>(std::numeric_limits<Index>::max())) {
+    // Note: children of a syntax tree node and indices of a token are counted and addressed by Index
+    if (std::ssize(node->children) > ParserState::MAX_NODE_WIDTH ||
+        (node->token.data.IsTuple() && std::ssize(node->token.data.ToTuple()) > ParserState::MAX_NODE_WIDTH)) {
       state->OnError(ParseEID::syntax, node->token.pos.start);
       return false;
     }
